@@ -65,7 +65,14 @@ ChainSeqs == IF AllStyles
              ELSE LET S1 == {s0 \in Starters : s0.acts[3].val = <<"a", COM, "b">>} IN
                   {<<s0, l>> : s0 \in S1, l \in Links} \cup {<<s0, WithChain(l1), l2>> : s0 \in S1, l1 \in BareLinks, l2 \in BareLinks}
 
-Descs == CASE Family = "chain"   -> ChainSeqs
+\* directives with one argument of 1, 2 and 3 characters
+DirArgs == {[dir |-> "SecMarker", arg |-> a] : a \in {<<"A">>, <<"AB">>, <<"A", "-", "B">>}}
+           \cup {[dir |-> "SecRuleRemoveById", arg |-> a] : a \in {<<"1">>, <<"10">>, <<"1", "-", "9">>}}
+           \cup {[dir |-> "SecRuleRemoveByTag", arg |-> a] : a \in {<<"t">>, <<"tt">>, <<"t", ".", "t">>}}
+           \cup {[dir |-> "SecRuleEngine", arg |-> a] : a \in {<<"On">>, <<"Off">>}}
+           \cup {[dir |-> "SecRequestBodyLimit", arg |-> a] : a \in {<<"7">>, <<"77">>, <<"777">>}}
+Descs == CASE Family = "dirarg"  -> DirArgs
+           [] Family = "chain"   -> ChainSeqs
            [] Family = "targets" -> {[targets |-> ts, op |-> DefOp, acts |-> DefActs] : ts \in TargetLists}
            [] Family = "op"      -> {[targets |-> DefTargets, op |-> o, acts |-> as] : o \in Ops, as \in {DefActs, << >>}}
            [] Family = "acts"    -> {[targets |-> DefTargets, op |-> DefOp, acts |-> as] : as \in ActLists}
@@ -81,7 +88,7 @@ MutStyle(s) == s = Plain \/ s = Style(FALSE, FALSE, TRUE, TRUE, "actions", FALSE
 NoMut == [kind |-> "none", pos |-> 0]
 Structural(r) == r \notin {"c", "w", "nl", "cmt", "indent"}
 DS == IF Family = "chain" THEN d ELSE <<d>>        \* the rules of the text
-Rendered == RenderAll(DS, st)
+Rendered == IF Family = "dirarg" THEN RenderDir(d, st) ELSE RenderAll(DS, st)
 Muts(ps) == {[kind |-> k, pos |-> i] : k \in {"del", "dup"}, i \in {j \in 1..Len(ps) : Structural(ps[j].r)}}
 Apply(ps, m) == CASE m.kind = "none" -> ps
                   [] m.kind = "del" -> SubSeq(ps, 1, m.pos - 1) \o SubSeq(ps, m.pos + 1, Len(ps))
@@ -98,9 +105,12 @@ Spec == Init /\ [][Next]_<<d, st, mut>>
 
 Pieces == Apply(Rendered, mut)
 \* every rendering of a description reads back as that description: the renderer is unambiguous under the reference reader
-RoundTrip == mut = NoMut => ReadAll(Strs(Pieces)) = Ok([i \in 1..Len(DS) |-> Normal(DS[i])])
+RoundTrip == mut = NoMut => IF Family = "dirarg" THEN ReadDir(Strs(Pieces)) = Ok([dir |-> FoldDir(d.dir), arg |-> d.arg])
+                                                    ELSE ReadAll(Strs(Pieces)) = Ok([i \in 1..Len(DS) |-> Normal(DS[i])])
 \* a mutated text either is rejected or reads as something; it never reads back as the original unless the delimiter was redundant
-Emit == PrintT(<<"OUT", ToJson([fam |-> Family, ds |-> [i \in 1..Len(DS) |-> Normal(DS[i])], style |-> st, toks |-> Strs(Pieces),
+EmitDir == PrintT(<<"OUT", ToJson([fam |-> Family, dd |-> d, style |-> st, toks |-> Strs(Pieces),
+                                   mut |-> [kind |-> mut.kind, pos |-> mut.pos, role |-> IF mut.kind = "none" THEN "" ELSE Rendered[mut.pos].r]])>>)
+Emit == IF Family = "dirarg" THEN EmitDir ELSE PrintT(<<"OUT", ToJson([fam |-> Family, ds |-> [i \in 1..Len(DS) |-> Normal(DS[i])], style |-> st, toks |-> Strs(Pieces),
                                 mut |-> [kind |-> mut.kind, pos |-> mut.pos, role |-> IF mut.kind = "none" THEN "" ELSE Rendered[mut.pos].r],
                                 exp |-> ReadAll(Strs(Pieces))])>>)
 =============================================================================
